@@ -431,6 +431,18 @@ func runC19(c *fw.Ctx) {
 		step("Insert(at 0)", func() at.List { return l.Insert(0, 1) })
 		step("SetTF(leaf replace)", func() at.List { return l.SetTF("#0", 5) })
 		step("SetTF(padding)", func() at.List { return l.SetTF(fmt.Sprintf("#%d", l.Count()+3), 5) })
+		step("SetTF(nil into spare room)", func() at.List {
+			l.Add(1, 2, 3).Pop().Pop() // shrank: room behind the end
+			return l.SetTF(fmt.Sprintf("#%d", l.Count()), nil)
+		})
+		step("SetTF(nil behind a gap in spare room)", func() at.List {
+			l.Add(1, 2, 3, 4).Delete(l.Count()-1, l.Count()-2, l.Count()-3)
+			return l.SetTF(fmt.Sprintf("#%d", l.Count()+1), nil)
+		})
+		step("SetTF(nil over an element)", func() at.List { return l.SetTF("#0", nil) })
+		step("Add(nil)", func() at.List { return l.Add(nil) })
+		step("Replace(nil)", func() at.List { return l.Replace(0, nil) })
+		step("Insert(nil at end)", func() at.List { return l.Insert(l.Count(), nil) })
 		step("SetTF(nested object)", func() at.List { return l.SetTF("#1.k", 5) })
 		step("SetTF(nested list)", func() at.List { return l.SetTF("#2#1", 5) })
 		step("UnsetTF(nested)", func() at.List { return l.UnsetTF("#1.k") })
